@@ -124,7 +124,7 @@ def probe_lines(gen_path):
     out = []
     with open(gen_path) as f:
         for n, ln in enumerate(f, 1):
-            if "assert(false); " in ln and "/*@P*/" in ln:
+            if "assert(false); }" in ln and "/*@P*/" in ln:
                 out.append(n)
     return out
 
